@@ -55,6 +55,7 @@ type LBeh struct {
 	Prms    []int    `json:"prms"`
 	Crashes [][]LImg `json:"crashes"`
 	Final   []LImg   `json:"final"`
+	Differ  bool     `json:"differ"` // some crash leaves two unfinished requests with different fraction lists
 }
 
 var (
@@ -85,7 +86,11 @@ func loadLoader() error {
 		if err := json.Unmarshal(bs.Bytes(), &b); err != nil || b.NR < 1 || len(b.Lists) != b.NR || len(b.Prms) != b.NR || len(b.Final) != b.NR || b.Par < 1 {
 			return fmt.Errorf("bad loader behaviour %s: %v", bs.Text(), err)
 		}
-		lbehs[b.NF] = append(lbehs[b.NF], b)
+		k := b.NF
+		if b.Differ {
+			k = -b.NF // (their own round-robin: every other replay of a job takes one of these)
+		}
+		lbehs[k] = append(lbehs[k], b)
 	}
 	return nil
 }
@@ -257,7 +262,11 @@ func sameDir(dir string, im []LImg, reqs []*lreq, names []string) string {
 func (w *world) loaderJob(report func(int, *mismatch)) {
 	for k := 0; k < w.j.Loader; k++ {
 		names, byMask := w.ranges()
-		all := lbehs[len(names)]
+		key := len(names)
+		if k%2 == 0 && len(lbehs[-key]) > 0 {
+			key = -key
+		}
+		all := lbehs[key]
 		if len(all) == 0 {
 			lSkip.Add(1)
 			return
@@ -266,8 +275,8 @@ func (w *world) loaderJob(report func(int, *mismatch)) {
 		var b *LBeh
 		cursorMu.Lock()
 		for try := 0; try < len(all) && b == nil; try++ {
-			c := &all[lcursor[len(names)]%len(all)]
-			lcursor[len(names)]++
+			c := &all[lcursor[key]%len(all)]
+			lcursor[key]++
 			ok := true
 			for _, l := range c.Lists {
 				if _, have := byMask[mask(l)]; !have {
@@ -281,7 +290,7 @@ func (w *world) loaderJob(report func(int, *mismatch)) {
 		cursorMu.Unlock()
 		if b == nil {
 			lSkip.Add(1)
-			return
+			continue
 		}
 		if m := w.loaderStage(b, k, names, byMask); m != nil {
 			if m.kind != "infra" {
